@@ -37,16 +37,19 @@ Proof.
   split; [vm_compute; reflexivity|]. split; vm_compute; reflexivity.
 Qed.
 
-(* the observed behaviour of the real float conversion on "0.995" at precision 2 (fast_atof /
-   modp_dtoa: the tie branch carries into a third digit and prints "0.1"), everything else as
-   render_default *)
+(* the observed behaviour of the real float conversion on a value >= 2^31 (fast_atof / modp_dtoa
+   switch to sprintf("%e"): 2147483648.0 prints as 2.147484e+09, 7 significant digits), everything
+   else as render_default.  (The tie-branch carry 0.995 -> 0.1 of DESIGN F02 was repaired in
+   /repo a6c4c45.) *)
+Definition big_txt : list N := [50; 49; 52; 55; 52; 56; 51; 54; 52; 56; 46; 48].          (* 2147483648.0 *)
+Definition big_out : list N := [50; 46; 49; 52; 55; 52; 56; 52; 101; 43; 48; 57].          (* 2.147484e+09 *)
 Definition render_obs (ty : N) (v : list N) : list N :=
-  if is_float_type ty && list_eqb v [48; 46; 57; 57; 53] then [48; 46; 49] else render_default ty v.
+  if is_float_type ty && list_eqb v big_txt then big_out else render_default ty v.
 Definition ex_ctx_obs : ctx :=
   mkCtx (c_fields ex_ctx) (c_msgs ex_ctx) (c_header ex_ctx) (c_trailer ex_ctx) (c_hdr_init ex_ctx)
         (c_trl_init ex_ctx) (c_begin ex_ctx) render_obs.
-(* an order with OrderQty (38, float) = "0.995" *)
-Definition ex_order_f : mbase := addf (addf (create_group ex_orders true) 38 [48; 46; 57; 57; 53]) 11 [79; 49].
+(* an order with OrderQty (38, float) = 2147483648.0 *)
+Definition ex_order_f : mbase := addf (addf (create_group ex_orders true) 38 big_txt) 11 [79; 49].
 Definition ex_list_f : message :=
   let m := mk_message ex_ctx_obs (mkMD [69] false ex_body) true in
   let b := with_elems (addf (addf (m_body m) 73 [49]) 66 [76; 49]) 73 [ex_order_f] in
@@ -59,10 +62,10 @@ Definition first_elem_val (m : message) (g f : N) : option (list N) :=
 
 Lemma c01_float_refuted_lemma :
   exists c m b m' b2,
-    c_render c ft_float [48; 46; 57; 57; 53] = [48; 46; 49] /\   (* 0.995 prints as 0.1: observed *)
-    first_elem_val m 73 38 = Some [48; 46; 57; 57; 53] /\
+    c_render c ft_float big_txt = big_out /\        (* 2147483648.0 prints as 2.147484e+09: observed *)
+    first_elem_val m 73 38 = Some big_txt /\
     roundtrip c m = Ok (b, m', b2) /\
-    first_elem_val m' 73 38 = Some [48; 46; 49].
+    first_elem_val m' 73 38 = Some big_out.
 Proof.
   exists ex_ctx_obs, ex_list_f. do 3 eexists. split; [reflexivity|]. split; [vm_compute; reflexivity|].
   split; vm_compute; reflexivity.
